@@ -32,6 +32,7 @@ type ifaceWorker struct {
 	shared     *genesis
 	bufA, bufR []byte
 	enabledBuf []Op
+	memo       map[string]memoRes
 }
 
 // privateGenesis: own chain state, shared reference database (renewed now and then to bound its growth).
@@ -111,28 +112,64 @@ func (x *ifaceRun) legal(op Op, private bool) bool {
 	return true
 }
 
+// firstDivergence runs ops with a comparison after every step and returns (illegal, step of the first
+// disagreement or -1). Results for short sequences are memoised per worker: the minimiser asks for the same
+// short candidates again and again.
+type memoRes struct {
+	illegal bool
+	step    int16
+}
+
+func seqKey(ops []Op) string {
+	b := make([]byte, 0, 4*len(ops))
+	for _, o := range ops {
+		b = append(b, byte(o.K), byte(o.A), byte(o.S), byte(o.V))
+	}
+	return string(b)
+}
+
+func (w *ifaceWorker) firstDivergence(ops []Op) memoRes {
+	memoise := len(ops) <= 4
+	var k string
+	if memoise {
+		k = seqKey(ops)
+		if m, ok := w.memo[k]; ok {
+			return m
+		}
+	}
+	r := w.exec(ops, true, true)
+	m := memoRes{illegal: r.illegal, step: -1}
+	if !r.illegal && r.diffs != nil {
+		m.step = int16(r.step)
+	}
+	if memoise {
+		if w.memo == nil || len(w.memo) > 400000 {
+			w.memo = map[string]memoRes{}
+		}
+		w.memo[k] = m
+	}
+	return m
+}
+
 // minimise removes operations greedily (left to right, to a fixpoint) while the remaining sequence is legal
-// and the back-ends still disagree somewhere. The result is a deterministic function of the input sequence.
-// RevertToSnapshot positions are kept as they are; a removal that makes one dangle is simply illegal.
+// and the back-ends still disagree somewhere; what follows the first disagreement is dropped. The result is
+// a deterministic function of the input sequence. RevertToSnapshot positions are kept as they are; a removal
+// that makes one dangle is simply illegal.
 func (w *ifaceWorker) minimise(ops []Op) ([]Op, execResult) {
 	cur := append([]Op(nil), ops...)
-	best := w.exec(cur, true, true)
 	for changed := true; changed; {
 		changed = false
 		for i := 0; i < len(cur); i++ {
 			cand := append(append([]Op(nil), cur[:i]...), cur[i+1:]...)
-			r := w.exec(cand, true, true)
-			if r.illegal || r.diffs == nil {
+			m := w.firstDivergence(cand)
+			if m.illegal || m.step < 0 {
 				continue
 			}
-			cand = cand[:r.step] // drop what follows the first divergence
-			cur, best, changed = cand, r, true
+			cur, changed = cand[:m.step], true
 			i--
 		}
 	}
-	// argument simplification that does not change the signature: prefer Finalise over NextTx/EndBlock? No:
-	// kinds are part of the signature, so they stay.
-	return cur, best
+	return cur, w.exec(cur, true, true)
 }
 
 // ---------------------------------------------------------------------------------------------
@@ -215,6 +252,7 @@ type ifaceEngine struct {
 	mu       sync.Mutex
 	findings map[string]*finding
 	samples  []ifaceCase
+	nSamples int32
 }
 
 func newIfaceEngine(workers int, deadline time.Time) *ifaceEngine {
@@ -311,10 +349,11 @@ func (e *ifaceEngine) visit(w *ifaceWorker, seq []Op, alpha []Op, allowEndBlock 
 		}
 		return nil, false
 	}
-	if count {
+	if count && len(seq) >= 3 && (x.revertUndid || x.finalisePending) && atomic.LoadInt32(&e.nSamples) < 3 {
 		e.mu.Lock()
-		if len(e.samples) < 3 && len(seq) >= 3 && (x.revertUndid || x.finalisePending) {
+		if len(e.samples) < 3 {
 			e.samples = append(e.samples, ifaceCase{Level: "iface", Ops: opStrings(seq)})
+			atomic.StoreInt32(&e.nSamples, int32(len(e.samples)))
 		}
 		e.mu.Unlock()
 	}
